@@ -132,7 +132,11 @@ NonLocalCopyable(d) == \A e \in Edges(d) :
 (* acyclicity of every dataflow sibling graph, every edge lifted to the children of the container *)
 RECURSIVE Reach(_, _, _)
 Reach(E, S, k) == IF k = 0 THEN S ELSE LET S2 == S \cup {y[2] : y \in {x \in E : x[1] \in S}} IN IF S2 = S THEN S ELSE Reach(E, S2, k - 1)
-SibEdges(d, p) == {<<Src(d, e)[1], AncSib(d, p, Dst(d, e)[1])>> : e \in {x \in Edges(d) : Par(d, Src(d, x)[1]) = p /\ Src(d, x)[1] # 0}}
+(* (a static edge - Function or Const - that leaves the region is not lifted: it needs no state-order edge and its source has no
+   inputs, so it cannot close a cycle; lifting it would turn a recursive call, FuncDefn -> Call inside its own body, into a loop) *)
+SibEdges(d, p) == {<<Src(d, e)[1], AncSib(d, p, Dst(d, e)[1])>> :
+                     e \in {x \in Edges(d) : /\ Par(d, Src(d, x)[1]) = p /\ Src(d, x)[1] # 0
+                                             /\ ~(PortKind(Op(d, Src(d, x)[1]), "out", Src(d, x)[2])[1] \in {"Function", "Const"} /\ ~IsLocal(d, x))}}
 Acyclic(d) == \A p \in NodeIds(d) : HasInner(Op(d, p)) =>
   LET E == {x \in SibEdges(d, p) : x[2] >= 0} IN
   \A n \in {x[1] : x \in E} : n \notin Reach(E, {y[2] : y \in {x \in E : x[1] = n}}, N(d))
